@@ -39,6 +39,34 @@ CHECKS = {
             "Conflict shape x content pair x 10 resolver behaviours, both user operations first, then every interleaving of "
             "engine steps: outcome table of the statement, resolver call count and arguments, and a singleton terminal "
             "observation per job (schedule independence).", NOTE_E1, "5/C05"),
+    "C08": ("seqx+enumx", TECH_E1 + " with a persistence monitor; " + TECH_E4 + " for the codec",
+            "After every engine transition of every interleaving of the C01 history list (storage attached) the stored rows "
+            "must equal the live entries byte for byte, with no stale row and an empty dirty set, and a SyncState reloaded "
+            "from a copy of the storage must have the same entries, pending set and id/path lookups. The codec is enumerated "
+            "over every combination of hash shape, path, id, existence, ignore reason and stamp values, plus legacy rows.",
+            NOTE_E1, "5/C08"),
+    "C09": ("apix", TECH_E2,
+            "Every call sequence up to depth 4 (5 thorough) over the storage API with colliding tags and ids and close/reopen "
+            "is run on SqliteStorage (file and :memory:) and the upstream MockStorage; after each call the full contents are "
+            "compared with a dict.", "Trusted: the dict model; durability is close/reopen, not power loss. MockStorage is a "
+            "test fixture: its two defects are listed as known findings.", "5/C09"),
+    "C11": ("apix+seqx", TECH_E2 + "; invariant monitor on the engine exploration",
+            "All sequences of raw state-level operations (events for both id styles, split, discard, conflict, finish, "
+            "side-state move, field assignments) to depth 2 on the full and depth 3 on a reduced alphabet on a bare SyncState, "
+            "plus the same index/pending-set invariants after every transition of an engine exploration.",
+            NOTE_E1, "5/C11"),
+    "C13": ("enumx", TECH_E4,
+            "Every string up to length 5 (6 thorough) over an 8-symbol alphabet for the unary laws, all folder/relative-part "
+            "pairs from strings up to length 3 (4) for subpath, prefix-sibling, replace and match laws, four helper "
+            "configurations, and the translate round trip for three case-mode pairs.",
+            "Trusted: the law statements in vmc/props/c13.py; the random-long-path clause is not claimed.", "5/C13"),
+    "C16": ("apix", TECH_E2,
+            "Every call sequence up to depth 3 (4 thorough; filesystem 2/3) over create/mkdir/rename/upload/delete with "
+            "colliding names and four size classes on four mock flavours and the filesystem provider, compared after every "
+            "call with a reference tree: result class, info/exists/listdir/download agreement, id stability, hash law, event "
+            "report; plus identity-on-connect, single-use guard and watchdog event conversion.",
+            "Trusted: the reference tree in vmc/props/c16.py (contract as documented by test_provider.py); asynchronous inotify "
+            "delivery and networked providers are out of reach offline.", "5/C16"),
     "C19": ("apix", TECH_E2,
             "Every call sequence up to depth 3 (4 in thorough) over the cache API on colliding paths and ids, for both case "
             "modes, is executed on the real HierarchicalCache; structural invariants (acyclic, parent links, id map == reachable "
